@@ -95,6 +95,12 @@ pub fn run(reg: &dyn Registry, ctx: &Ctx) -> Outcome {
         let zero_img = vec![0u8; info.seed_len];
         let bad: Vec<&Vec<u8>> = seeds.par_iter().filter(|s| crate::ops::guarded(|| ty.from_seed(s).ser()).ok().flatten().as_deref() == Some(&zero_img[..])).collect();
         ctx.add("api_seeds_checked_nonzero_state", seeds.len() as u64);
+        for x in crate::alphabet::u64_alphabet() {
+            ctx.add("api_seeds_checked_nonzero_state", 1);
+            if crate::ops::guarded(|| ty.seed_from_u64(x).ser()).ok().flatten().as_deref() == Some(&zero_img[..]) {
+                ctx.violation(&format!("C07:{}:api-zero-state", info.name), &format!("{}: seed_from_u64({:#x}) is in the all-zero state, the fixed point outside the cycle", info.name, x), json!({"kind":"ctor","type":info.name,"ctor":{"seed_from_u64":x}}));
+            }
+        }
         if let Some(s) = bad.first() {
             ctx.violation(&format!("C07:{}:api-zero-state", info.name), &format!("{}: from_seed({}) (a non-zero seed) is in the all-zero state, the fixed point outside the cycle", info.name, hex(s)), json!({"kind":"lockstep","type":info.name,"seed":hex(s),"steps":4}));
         }
